@@ -37,6 +37,15 @@ theorem decrypt_alg_mismatch_refused (m : Msg) (mode : PMode) (w : Wire) (ct : B
   unfold decryptEnc
   simp [hw, hc, h]
 
+/-- **the unprotected bucket has no say**: verification of a COSE_Sign1 / COSE_Mac0 / COSE_Mac does not look at the
+    unprotected map at all — neither the message's nor the retained wire struct's — so an `alg` placed there cannot
+    override (or satisfy) the protected one -/
+theorem verify_ignores_unprotected (m : Msg) (w : Wire) (hw : m.mm = some w) (u u' : Hdr)
+    (key : KeyView) (check : Bytes → Bytes → Res Unit) (ext : Option Bytes) :
+    verifyAuth { m with unprot := u, mm := some { w with unprot := u' } } key check ext = verifyAuth m key check ext := by
+  unfold verifyAuth tobe
+  simp only [hw]
+
 /-- what "different" means: label 1 present and its value, read as an integer (anything unreadable counts as 0),
     differs from the key's algorithm -/
 theorem algMismatch_iff (p : CMap) (a : Int) :
